@@ -37,6 +37,10 @@ pub struct ScheduleSpec {
     /// when that task is not runnable); after the list is exhausted the strategy continues.
     #[serde(default, skip_serializing_if = "Option::is_none")]
     pub explicit: Option<Vec<u32>>,
+    /// with `serial`: at these decision indices the current task is preempted (the next runnable
+    /// task in id order runs instead) - used to enumerate all single-preemption schedules
+    #[serde(default, skip_serializing_if = "Vec::is_empty")]
+    pub preempt_at: Vec<u64>,
 }
 
 #[derive(Clone, Copy, PartialEq, Eq, Debug)]
@@ -183,7 +187,12 @@ impl Sched {
                     }
                 }
                 Strategy::Serial => {
-                    if me_runnable {
+                    let d = inner.stats.decisions - 1;
+                    if me_runnable && inner.spec.preempt_at.contains(&d) {
+                        // forced preemption: the next runnable task after me (round robin)
+                        let m = me.unwrap();
+                        *runnable.iter().find(|t| **t > m).unwrap_or(&runnable[0])
+                    } else if me_runnable {
                         me.unwrap()
                     } else {
                         runnable[0]
